@@ -35,3 +35,19 @@ def install_open(*modules):
     if SYMBOLIC:
         for m in modules:
             m.__dict__['open'] = fake_open
+
+
+def xml_file(name, root):
+    """make an XML document readable by the readers: symbolic runs keep the element tree, replays write real XML"""
+    if SYMBOLIC:
+        from engines.pysym import stubs
+        stubs.XML_FILES[name] = root
+        return name
+    from lxml import etree
+    if _tmp[0] is None:
+        _tmp[0] = tempfile.mkdtemp(prefix='verif-files-')
+        atexit.register(shutil.rmtree, _tmp[0], True)
+    p = os.path.join(_tmp[0], name)
+    with open(p, 'wb') as f:
+        f.write(etree.tostring(root, encoding='utf-8', pretty_print=True))
+    return p
